@@ -9,7 +9,7 @@ import builtins
 import z3
 
 from . import explore as _ex
-from .values import OpaqueStr, SymBool, SymBytes, SymInt, _cell_ok, conc
+from .values import OpaqueStr, SymBool, SymBytes, SymInt, SymStr, _cell_ok, conc
 
 _bytearray = builtins.bytearray
 _bytes = builtins.bytes
@@ -66,6 +66,8 @@ def _m_bytes(*a, **k):
 
 
 def _m_len(x):
+    if _isinstance(x, SymStr):
+        return _len(x.c)
     if _isinstance(x, SymBytes) and x.symlen is not None:
         return x.symlen
     return _len(x)
@@ -175,7 +177,7 @@ MODELS = {
 
 
 def _symbolic(x):
-    return _isinstance(x, (SymInt, SymBool, SymBytes, OpaqueStr))
+    return _isinstance(x, (SymInt, SymBool, SymBytes, OpaqueStr, SymStr))
 
 
 def call(f, *a, **k):
@@ -325,7 +327,7 @@ def mod(l, r):
             for (name, conv), x in zip(convs, args):
                 if _isinstance(x, (SymInt, SymBool)):
                     out.append(0)
-                elif _isinstance(x, (SymBytes, OpaqueStr)):
+                elif _isinstance(x, (SymBytes, OpaqueStr, SymStr)):
                     if conv in _FMT_INT or conv in _FMT_FLOAT:
                         raise TypeError("%%%s format: a real number is required, not %s"
                                         % (conv, "bytearray" if _isinstance(x, SymBytes) else "str"))
